@@ -31,6 +31,15 @@ def run(replay=None):
             ck.impl_violation("entry-jump-wrong-destination", "the entry jump for a replacement at 0x%x is %s: it loads %s into RDX (NOP; MOVABS RDX,imm64; JMP [RDX] expected %s)" % (
                 to, r["bytes"], r["bytes"][6:22], want), {"to": r["to"], "bytes": r["bytes"], "expected": want})
             break
+    # generic instantiations (own process)
+    gp = os.path.join(ck.wd, "generic.jsonl")
+    rcg, outg = vlib.run_hx(hx, ["c01", "-extra", "generic", "-out", gp], timeout=300)
+    for r in (vlib.read_jsonl(gp) if os.path.exists(gp) else []):
+        if r.get("kind") == "generic" and not (r["seen_ok"] and r["got_ok"] and not r["panic"]):
+            ck.impl_violation("generic-args-shifted", "replacement of the generic instantiation %s called with %d sees %s (and the caller gets a wrong result: %s) %s" % (
+                r["name"], r["sent"], r["seen"], not r["got_ok"], r["panic"]), r)
+    if rcg != 0:
+        ck.impl_violation("generic-crash", "mocking a generic instantiation crashes the process (exit %d)" % rcg, {"tail": outg[-400:]})
     # retention: builder and callback dropped by the program, collections with heap churn, then a call (own process: a crash is an observation)
     rp = os.path.join(ck.wd, "retain.jsonl")
     rc, out = vlib.run_hx(hx, ["c01", "-extra", "retain", "-out", rp], timeout=600)
